@@ -1258,9 +1258,9 @@ class Interp:
             if v.func == "type" and attr == "__name__" and v.args:
                 a0 = v.args[0]
                 if isinstance(a0, Sym) and a0.cls:
-                    return Const(a0.cls)
+                    return Const(a0.cls.split(".")[-1])
                 if isinstance(a0, Obj):
-                    return Const(a0.cls)
+                    return Const(a0.cls.split(".")[-1])
                 if isinstance(a0, FuncRef):
                     return Const(a0.name)
             return App(f".{attr}", (v,), (), getattr(node, "lineno", 0))
